@@ -412,11 +412,14 @@ class CFG:
                            ast.Global, ast.Nonlocal, ast.Pass)):
             n = self._node('def' if isinstance(st, (ast.FunctionDef, ast.ClassDef)) else 'stmt', st, frame=frame)
             self._connect(tails, n)
+            if isinstance(st, ast.ClassDef):
+                # executing a class statement runs its body and calls the metaclass
+                self._route_exc(n, frame, ASYNC_EXC, kind='async', phase='pre')
             return [(n, 'norm')]
         if isinstance(st, ast.Expr) and isinstance(st.value, (ast.Yield, ast.YieldFrom)):
-            n = self._node('yield', st, frame=frame)
-            self._connect(tails, n)
-            return [(n, 'norm')]
+            first, last = self._simple(st, tails, frame)
+            first.kind = 'yield'
+            return [(last, 'norm')]
         # Assign / AugAssign / AnnAssign / Expr / Delete
         first, last = self._simple(st, tails, frame)
         if isinstance(st, ast.Assign) and isinstance(st.value, (ast.Yield, ast.YieldFrom)):
@@ -462,6 +465,8 @@ class CFG:
         def builder(entry, outer, st=st):
             x = self._node('with_exit', st, frame=outer)
             self._edge(entry, x)
+            # __exit__ is a call: the asynchronous exception can land on it
+            self._route_exc(x, outer, ASYNC_EXC, kind='async', phase='pre')
             return [(x, 'norm')]
         fin = Frame('finally', frame, builder=builder, stmt=st, norm_tails=None)
         body_tails = self._block(st.body, [(last, 'norm')], fin)
